@@ -237,6 +237,8 @@ inductive Val
   | app (f : Nat) (args : List Val)      -- free term f_i(args)
   deriving Repr, Inhabited
 
+/- python `==` on these values (`True == 1`, `False == 0`; used by the cache comparison
+`inputs.to_value_dict() == _cached_inputs`) -/
 mutual
 def Val.beq : Val → Val → Bool
   | .nd, .nd => true
@@ -244,6 +246,8 @@ def Val.beq : Val → Val → Bool
   | .none, .none => true
   | .nat a, .nat b => a == b
   | .bool a, .bool b => a == b
+  | .nat a, .bool b => a == (if b then 1 else 0)
+  | .bool a, .nat b => b == (if a then 1 else 0)
   | .list a, .list b => Val.beqL a b
   | .app f a, .app g b => f == g && Val.beqL a b
   | _, _ => false
@@ -330,33 +334,35 @@ def emitting (nodes : Nat → Node) (st : Store) (i : Nat) : List Sig :=
     | v => base ++ [if v.truthy then sigTrue i else sigFalse i]
   | _ => base
 
-/-- `Node.run()` of a local child inside a running parent: fetch → cache hit? → cache write →
-readiness gate → call → outputs / failed → finished → emit -/
+/-- `Node.run()` of a local child inside a running parent (tree with the cache fixes 0699958):
+fetch → cache hit (only where a run would be admitted: not failed, all inputs data)? →
+readiness gate → cache write → call → outputs / failed (+ cache dropped) → finished → emit -/
 def runNode (nodes : Nat → Node) (st : Store) (i : Nat) : Store × Bool × List Sig :=
   let nd := nodes i
   let args := fetchArgs nodes st.out i
-  let hit := nd.useCache && (match st.cached i with
+  let ready := !(st.failed i) && !(args.any Val.isNd)
+  let hit := nd.useCache && ready && (match st.cached i with
     | some c => Val.beqL c args
     | none => false)
   if hit then
     -- register start + finish + emit, function not called
     let st1 := { st with execLog := st.execLog ++ [i], doneLog := st.doneLog ++ [i] }
     (st1, false, emitting nodes st1 i)
+  else if !ready then
+    (st, true, [])                                              -- ReadinessError, nothing changes
   else
     let st0 := if nd.useCache then { st with cached := updF st.cached i (some args) } else st
-    if st0.failed i || args.any Val.isNd then
-      (st0, true, [])                                           -- ReadinessError
-    else
-      let k := st0.attempts i + 1
-      let st1 := { st0 with attempts := updF st0.attempts i k, callLog := st0.callLog ++ [(i, args)],
-                            execLog := st0.execLog ++ [i] }
-      match (if nd.failAt.contains k then none else eval nd.kind args) with
-      | some v =>
-        let st2 := { st1 with out := updF st1.out i v, doneLog := st1.doneLog ++ [i] }
-        (st2, false, emitting nodes st2 i)
-      | none =>
-        let st2 := { st1 with failed := updF st1.failed i true, doneLog := st1.doneLog ++ [i] }
-        (st2, true, emitting nodes st2 i)
+    let k := st0.attempts i + 1
+    let st1 := { st0 with attempts := updF st0.attempts i k, callLog := st0.callLog ++ [(i, args)],
+                          execLog := st0.execLog ++ [i] }
+    match (if nd.failAt.contains k then none else eval nd.kind args) with
+    | some v =>
+      let st2 := { st1 with out := updF st1.out i v, doneLog := st1.doneLog ++ [i] }
+      (st2, false, emitting nodes st2 i)
+    | none =>
+      let st2 := { st1 with failed := updF st1.failed i true, cached := updF st1.cached i none,
+                            doneLog := st1.doneLog ++ [i] }
+      (st2, true, emitting nodes st2 i)
 
 def nodeSem (nodes : Nat → Node) : Sem Store := { react := runNode nodes }
 
